@@ -287,6 +287,16 @@ def rule_row_transfer_pairing(ctx, crate, rule="R-ROW-TRANSFER-PAIRING"):
                       "rows added to zombie_lines_count are released from last_line_count (Keep) on every exit, and vice versa",
                       "zombie rows are counted without the matching Keep on some exit: %s" % ("; ".join(esc) if esc else "Keep reachable without the add"),
                       cfg, witness=esc)
+        # (c) conservation: LineAdjust::Keep saturates at the rows that are actually counted for the screen, so the zombie
+        #     count may only grow by what Keep released (its result) — not by the requested number of rows. Otherwise,
+        #     after a clear() (nothing on screen, members still hold their last lines), reaping a bar counts rows that do not
+        #     exist, and the next println/clear erases that many rows of log output above the bars.
+        for (ubb, line, usl, how) in adds:
+            rel = [c for c in usl.calls if c.matches(r"draw_target::ProgressDrawTarget::adjust_last_line_count", r"draw_target::Drawable::<'_>::adjust_last_line_count")]
+            ctx.check(bool(rel), rule, "add-is-what-keep-released", b.name, "%s:%d" % (b.file, line),
+                      "zombie_lines_count grows by the number of rows LineAdjust::Keep actually released",
+                      "zombie_lines_count grows by the requested row count although Keep saturates at the rows on screen: after clear() "
+                      "a reaped bar counts rows that are not there, and the next println/clear erases that many log lines", cfg)
         # (b) every Clear(zombie_lines_count) is followed on all paths by a zero store
         zero_bbs = [i for i, s in zeros]
         for (cbb, cs, csl) in clears:
@@ -389,4 +399,15 @@ def rule_suspend_protocol(ctx, crate, rule="R-SUSPEND-PROTOCOL"):
         okd = len(cs) == 1 and b.must_pass([0], [cs[0].bb]) and bool(b.slice_args(cs[0]).params() - {1})
         ctx.check(okd, rule, "delegates:%s" % K.meth(fn), b.name, K.fn_loc(b), "%s forwards its closure to %s on every path" % (fn, down),
                   "%s does not hand its closure to %s (clear / run / redraw are no longer one critical section)" % (fn, down), cfg)
+    # the MultiProgress region is wiped only through MultiState::clear, which hands the zombie rows to the erase count and
+    # zeroes the counter; a bare Drawable::clear() in another MultiState method leaves the counter set, and the next
+    # println/clear erases that many rows of whatever was written in between (seed C03e)
+    for b in K.lib_bodies(crate):
+        own = K.owner_fn(crate, b)
+        if not own.startswith("multi::MultiState::") or own == "multi::MultiState::clear":
+            continue
+        for c in b.calls(r"draw_target::Drawable::<'_>::clear"):
+            n += 1
+            ctx.bad(rule, "multi-clears-via-clear:%s" % K.meth(own), b.name, c.loc(),
+                    "%s wipes the region with Drawable::clear() directly instead of MultiState::clear(): the zombie rows stay counted" % own, cfg)
     ctx.floor(rule, n, 4, cfg, "suspend closures")
